@@ -5,7 +5,7 @@ import Driver.Util
 /-!
 Line-protocol driver for the group model (exe `model_group`).
 
-  reset <initialMs> <retryMs> <fatalMs> <heartbeatMs>     -> ok
+  reset <initialMs> <retryMs> <fatalMs> <heartbeatMs> [<partsCancelSleeping 0|1>] -> ok
   ev <event>                                              -> one line per observation, `snap …`, `st …`
   mon-reset <initialMs> <retryMs> <fatalMs> <heartbeatMs> -> ok        (start an observed trace)
   mon-ev <event> / mon-ob <observation> / mon-snap <snapshot>          (snapshot closes the step)
@@ -197,6 +197,9 @@ def parseCfg : List String → Option Cfg
   | [a, b, c, d] => do
     let a ← a.toNat?; let b ← b.toNat?; let c ← c.toNat?; let d ← d.toNat?
     some { initialBackoffMs := a, retryBackoffMs := b, fatalBackoffMs := c, heartbeatMs := d }
+  | [a, b, c, d, e] => do
+    let a ← a.toNat?; let b ← b.toNat?; let c ← c.toNat?; let d ← d.toNat?; let e ← e.toNat?
+    some { initialBackoffMs := a, retryBackoffMs := b, fatalBackoffMs := c, heartbeatMs := d, partsCancelSleeping := e != 0 }
   | _ => none
 
 def verdict (pid : String) (cfg : Cfg) (tr : List MStep) : List String :=
